@@ -102,6 +102,11 @@ def variants(sh, vi):
     xroot = model.decorate(sh, lambda p, s: ['N&', 'N<x>', 'N"q"', "N'a"][(sum(p) + len(p)) % 4] + ''.join(map(str, p)),
                            lambda p, s: ['H&D', 'N<K', '--', 'S"B'][(sum(p) + len(p)) % 4])
     yield 'xml-labels', model.MT(5, toks(['w%d' % (i + 1) for i in range(n)]), xroot), ()
+    # terminals and constituents sharing label, edge and flags (decorations must still differ by node kind)
+    sroot = model.decorate(sh, lambda p, s: 'X', lambda p, s: 'SB')
+    stoks = model.mk_tokens(n, words=['w%d' % (i + 1) for i in range(n)], pos=['X'] * n, lemma=['l'] * n,
+                            morph=['m'] * n, edge=['SB'] * n)
+    yield 'shared-labels', model.MT(4, stoks, sroot), ()
     for rot in range(3):
         ws = [SPECIAL[(vi * 3 + rot * 5 + i * 4) % len(SPECIAL)] for i in range(n)]
         yield 'special%d' % rot, model.MT(7, toks(ws), root), ()
